@@ -9,7 +9,7 @@
      codec_ok     = (a) /\ (b) /\ (c) /\ (d)          codec_lax_ok = (a) /\ (b) /\ (c)
    dec_T false = the decoder as the code was found, dec_T true = with the missing check (repaired tree);
    Model/Wire.v code_strict_zero_offset / code_strict_fixed_scope / code_rejects_empty_list say which one the tree has. *)
-From Shisui Require Import Base.Bytes Base.Ssz Model.Wire Model.WireState Proofs.Ssz Proofs.Wire Proofs.WireState Gen.K_wire.
+From Shisui Require Import Base.Bytes Base.Ssz Model.Wire Model.WireState Proofs.Ssz Proofs.Ztyp Proofs.Wire Proofs.WireState Gen.K_wire.
 
 (* ---- portalwire messages whose decoder is already strict: all four clauses *)
 Theorem C14_Ping : codec_ok enc_Ping dec_Ping Ping_wf Ping_lim.
@@ -189,6 +189,25 @@ Theorem C14_HeaderRecord : codec_ok enc_HeaderRecord dec_HeaderRecord (fun _ => 
 Proof. exact HeaderRecord_codec. Qed.
 Print Assumptions C14_HeaderRecord.
 
+(* ---- history block bodies (two / three variable-size fields, two of them lists) and the epoch accumulator.
+        The bodies got the zero-offset repair too (flag code_strict_zero_offset); well-formedness = the field offsets fit
+        uint32 (the tag limits 16384 x 16 MiB exceed 4 GiB and WriteOffset truncates). *)
+Theorem C14_BodyLegacy : codec_ok enc_BodyLegacy (dec_BodyLegacy code_strict_zero_offset) BodyLegacy_wf BodyLegacy_lim.
+Proof. exact BodyLegacy_codec. Qed.
+Print Assumptions C14_BodyLegacy.
+Theorem C14_BodyLegacy_as_found_canonicity_refuted : ~ canonical (dec_BodyLegacy false) enc_BodyLegacy.
+Proof. exact BodyLegacy_as_found_canonicity_refuted. Qed.
+Print Assumptions C14_BodyLegacy_as_found_canonicity_refuted.
+Theorem C14_BodyShanghai : codec_ok enc_BodyShanghai (dec_BodyShanghai code_strict_zero_offset) BodyShanghai_wf BodyShanghai_lim.
+Proof. exact BodyShanghai_codec. Qed.
+Print Assumptions C14_BodyShanghai.
+Theorem C14_BodyShanghai_as_found_canonicity_refuted : ~ canonical (dec_BodyShanghai false) enc_BodyShanghai.
+Proof. exact BodyShanghai_as_found_canonicity_refuted. Qed.
+Print Assumptions C14_BodyShanghai_as_found_canonicity_refuted.
+Theorem C14_EpochAcc : codec_ok enc_EpochAcc dec_EpochAcc (fun _ => True) EpochAcc_lim.
+Proof. exact EpochAcc_codec. Qed.
+Print Assumptions C14_EpochAcc.
+
 (* ---- beacon content keys (fastssz generated code, strict as found): all four clauses.
         LightClientFinalityUpdateKey and LightClientOptimisticUpdateKey are the same code (one uint64). *)
 Theorem C14_LcUpdateKey : codec_ok enc_LcUpdateKey dec_LcUpdateKey LcUpdateKey_wf (fun _ => True).
@@ -226,13 +245,96 @@ Theorem C14_fixed_keys_total : forall s b, dec_BytecodeKey s b <> Panic /\ dec_H
 Proof. exact (fun s b => conj (dec_BytecodeKey_total s b) (dec_HistSummariesKey_total s b)). Qed.
 Print Assumptions C14_fixed_keys_total.
 
-(* PARTIAL - correspondence only (Model/WireState.v, no theorems yet): the state-network types built from ztyp's
-   Container / dynamic List / the hand-written Nibbles codec: AccountTrieNodeKey, ContractStorageTrieNodeKey, TrieNode,
-   TrieProof, ContractBytecodeContainer, AccountTrieNodeWithProof, ContractStorageTrieNodeWithProof,
-   ContractBytecodeWithProof.  Full statements intended: codec_ok enc_T dec_T wf_T lim_T with lim = at most 64 nibbles,
-   nodes of at most 1024 bytes, proofs of at most 65 nodes, code of at most 32768 bytes; and dec_T b <> Panic.
-   NOT MODELLED: the fork-digest dispatch of the beacon Forked* wrappers and history BlockBodyLegacy /
-   PortalBlockBodyShanghai / EpochAccumulator / SSZProof / MasterAccumulator. *)
+(* ---- the state-network types built from ztyp's Container / dynamic List / the hand-written Nibbles codec.
+        Derived from the generic invariants of Proofs/Ztyp.v (container_fwd / container_inv / container_total, exactness of
+        every field decoder, the dynamic-list lemmas) through the TypedContainer section of Proofs/WireState.v.
+        Limits: at most 64 nibbles (each < 16), trie nodes of at most 1024 bytes, proofs of at most 65 nodes, code of at most
+        32768 bytes.  Well-formedness asks Bytes32 fields to have 32 bytes and the value to fit 32-bit offsets (bl_fits,
+        40 + size < 2^32: ztyp's WriteOffset panics beyond). *)
+Theorem C14_AccountTrieNodeKey :
+  codec_ok enc_AccountTrieNodeKey dec_AccountTrieNodeKey AccountTrieNodeKey_wf AccountTrieNodeKey_lim.
+Proof. exact (proj1 AccountTrieNodeKey_codec_total). Qed.
+Print Assumptions C14_AccountTrieNodeKey.
+Theorem C14_StorageTrieNodeKey :
+  codec_ok enc_StorageTrieNodeKey dec_StorageTrieNodeKey StorageTrieNodeKey_wf StorageTrieNodeKey_lim.
+Proof. exact (proj1 StorageTrieNodeKey_codec_total). Qed.
+Print Assumptions C14_StorageTrieNodeKey.
+Theorem C14_TrieNode : codec_ok enc_TrieNode dec_TrieNode (fun _ => True) TrieNode_lim.
+Proof. exact TrieNode_codec. Qed.
+Print Assumptions C14_TrieNode.
+Theorem C14_TrieProof : codec_ok enc_TrieProof dec_TrieProof bl_fits proof_lim.
+Proof. exact TrieProof_codec. Qed.
+Print Assumptions C14_TrieProof.
+Theorem C14_BytecodeContainer : codec_ok enc_BytecodeContainer dec_BytecodeContainer (fun _ => True) BytecodeContainer_lim.
+Proof. exact BytecodeContainer_codec. Qed.
+Print Assumptions C14_BytecodeContainer.
+Theorem C14_AccountTrieNodeWithProof :
+  codec_ok enc_AccountTrieNodeWithProof dec_AccountTrieNodeWithProof AccountTrieNodeWithProof_wf AccountTrieNodeWithProof_lim.
+Proof. exact (proj1 AccountTrieNodeWithProof_codec_total). Qed.
+Print Assumptions C14_AccountTrieNodeWithProof.
+Theorem C14_StorageTrieNodeWithProof :
+  codec_ok enc_StorageTrieNodeWithProof dec_StorageTrieNodeWithProof StorageTrieNodeWithProof_wf StorageTrieNodeWithProof_lim.
+Proof. exact (proj1 StorageTrieNodeWithProof_codec_total). Qed.
+Print Assumptions C14_StorageTrieNodeWithProof.
+Theorem C14_BytecodeWithProof :
+  codec_ok enc_BytecodeWithProof dec_BytecodeWithProof BytecodeWithProof_wf BytecodeWithProof_lim.
+Proof. exact (proj1 BytecodeWithProof_codec_total). Qed.
+Print Assumptions C14_BytecodeWithProof.
+(* no decoder of the second table (Model/WireState.v) ever panics, in either variant *)
+Theorem C14_decoders_total_state : forall fs t b, dec_any2 fs t b <> Panic.
+Proof. exact dec_any2_total. Qed.
+Print Assumptions C14_decoders_total_state.
+
+(* the generic Container theorems themselves (any field list whose decoders are exact) *)
+Theorem C14_ztyp_container_reads_what_it_writes : forall fs cs vs data,
+  Forall exact fs -> fo3 fs cs vs -> zs_container (sers fs cs) = Ok data ->
+  exists r', z_container fs (rd_new data) = Ok (vs, r') /\ rd_inp r' = [].
+Proof. exact container_fwd. Qed.
+Print Assumptions C14_ztyp_container_reads_what_it_writes.
+Theorem C14_ztyp_container_accepts_only_what_it_writes : forall fs data vs r',
+  Forall exact fs -> has_dyn fs -> z_container fs (rd_new data) = Ok (vs, r') ->
+  exists cs, fo3 fs cs vs /\ zs_container (sers fs cs) = Ok data.
+Proof. exact container_inv. Qed.
+Print Assumptions C14_ztyp_container_accepts_only_what_it_writes.
+Theorem C14_ztyp_container_total : forall fs r, Forall total fs -> z_container fs r <> Panic.
+Proof. exact container_total. Qed.
+Print Assumptions C14_ztyp_container_total.
+
+(* ---- the fork-digest dispatch of the beacon Forked* wrappers (payload codec = the zrnt library, a Section variable here:
+        pdec k / penc k are Deserialize / Serialize of the k-th payload type; the correspondence run supplies the library's
+        own verdict per input).  As found, bytes after a fixed-size (altair) payload were ignored; repaired by
+        fixes/C14-forked-wrapper-scope.diff (Model/WireState.v code_strict_forked_scope = true). *)
+Theorem C14_fork_digest_switch : forall w,
+  fork_select w D_Bellatrix = Some 0 /\ fork_select w D_Capella = Some (match w with WHistSummaries => 0 | _ => 1 end) /\
+  fork_select w D_Deneb = Some (match w with WHistSummaries => 0 | _ => 2 end) /\
+  fork_select w D_Electra = Some (match w with WHistSummaries => 0 | WOptimistic => 2 | _ => 3 end).
+Proof. exact fork_select_known. Qed.
+Print Assumptions C14_fork_digest_switch.
+Theorem C14_Forked_unknown_digest_rejected : forall P pdec penc s w d rest,
+  w <> WHistSummaries -> nlen d = 4 -> ~ known_digest d -> dec_Forked P pdec penc s w (d ++ rest) = Err E_SELECTOR.
+Proof. exact Forked_unknown_rejected. Qed.
+Print Assumptions C14_Forked_unknown_digest_rejected.
+Theorem C14_Forked_accepts_only_known : forall P pdec penc s w data d k p,
+  dec_Forked P pdec penc s w data = Ok (d, k, p) -> nlen d = 4 /\ fork_select w d = Some k /\ (w = WHistSummaries \/ known_digest d).
+Proof. exact Forked_accepts_known. Qed.
+Print Assumptions C14_Forked_accepts_only_known.
+Theorem C14_Forked_roundtrip : forall P pdec penc, (forall k p, pdec k (penc k p) = Ok p) ->
+  forall s w d k p, nlen d = 4 -> fork_select w d = Some k -> dec_Forked P pdec penc s w (d ++ penc k p) = Ok (d, k, p).
+Proof. exact Forked_roundtrip. Qed.
+Print Assumptions C14_Forked_roundtrip.
+Theorem C14_Forked_canonical : forall P pdec penc, (forall k r p, pdec k r = Ok p -> exists t, r = penc k p ++ t) ->
+  forall w, w <> WHistSummaries -> canonical (dec_Forked P pdec penc code_strict_forked_scope w) (enc_Forked P penc).
+Proof. exact Forked_canonical. Qed.
+Print Assumptions C14_Forked_canonical.
+Theorem C14_Forked_total : forall P pdec penc s w data, (forall k r, pdec k r <> Panic) -> dec_Forked P pdec penc s w data <> Panic.
+Proof. exact Forked_total. Qed.
+Print Assumptions C14_Forked_total.
+Theorem C14_Forked_as_found_canonicity_refuted :
+  exists (pdec : N -> bytes -> res bytes) (penc : N -> bytes -> bytes),
+    (forall k p, nlen p = 1 -> pdec k (penc k p) = Ok p) /\ (forall k r p, pdec k r = Ok p -> exists t, r = penc k p ++ t) /\
+    ~ canonical (dec_Forked bytes pdec penc false WBootstrap) (enc_Forked bytes penc).
+Proof. exact Forked_as_found_canonicity_refuted. Qed.
+Print Assumptions C14_Forked_as_found_canonicity_refuted.
 
 (* ---- totality: no modelled decoder ever panics (Go: index / slice out of range), in any variant (as found or
         repaired), for any byte string.  dec_any dispatches to the 27 typed decoders; the typed statements follow. *)
